@@ -121,8 +121,13 @@ add("C07",
     "shows every production pushes and pops frames in matched pairs. Correspondence: generated models (blocks, functions, parameters, select, "
     "quantifiers with parenthesised and unparenthesised bodies, nested brace-less iterations, typedef names shadowed by variables, edges with unresolvable "
     "endpoints, templates, shadowing) through the real parser with a TraceBuilder recording the symbol bound by every expr_identifier; P.x queries for one- and "
-    "two-step instantiations; nested dynamic quantifiers with equal binder names.",
-    T + "translate/c16_grammar.py, harness/c07.cpp, c08 TraceBuilder. Declarations are told apart by unique range types (decl_var passes no position). "
+    "two-step instantiations; nested dynamic quantifiers with equal binder names. `P.x ... with P's arguments substituted`: a model of "
+    "expression_t::subst, type_t::subst and the substitution rounds of expr_dot (Model/TypeSubst.lean; the three C++ texts are matched and the "
+    "number of rounds regenerated by translate/typesubst.py): C07_member_type_closed -- after the rounds no parameter of any instantiation step is left "
+    "in the type, for every acyclic mapping in ANY storage order (the mapping is a std::map over symbol addresses) --, C07_member_type_order_irrelevant, "
+    "the substitution laws of C19 (identity, exact replacement, commutation), and the witness that one round is not enough; the model's result is "
+    "compared with the library's type of every chain query, on the sanitizer and on the -O2 build (the allocators order addresses differently).",
+    T + "translate/c16_grammar.py, translate/typesubst.py, harness/c07.cpp, c08 TraceBuilder. Declarations are told apart by unique range types (decl_var passes no position). "
     "Duplicate definitions (an error) are outside the property. 3 defects repaired (chained P.x substitution, dynamic binder stack; see DESIGN 9.3).",
     "Lean 4 refinement theorem (scope machine = declarative binding) + trace correspondence")
 
